@@ -23,6 +23,7 @@ META = {
     ),
 }
 META["explanation"] += ' C14.R4 is decided on the key paths of every store. C14.R5: the message handed to the value reader is a keyed lookup or max() over all candidates. C14.R6: decision table of the expiry update chain - every non-RQ 1F09 uses the payload countdown. C14.R7: no entity property reads <Message>.payload (or an attribute caching a payload) without an _expired test.'
+META["explanation"] += " C14.R2 also: a 'not expired' verdict is never served from the memo except 'cannot expire' (decision table with effects)."
 
 EB = "ramses_rf.entity_base"
 M = "ramses_tx.message"
